@@ -15,7 +15,7 @@
 (*           position pos                                                  *)
 (* Whole files used as targets are slots of kind k with name "".           *)
 (***************************************************************************)
-EXTENDS Naturals, Sequences, FiniteSets, TLC
+EXTENDS Integers, Sequences, FiniteSets, TLC
 
 Root == <<"r", "openapi.json">>
 RootDir == <<"r">>
